@@ -3,6 +3,7 @@
 from sa import tables as T
 from sa import controls as K
 from sa import effects as E
+from sa import excs as X
 
 
 def _t(rule_fn, **kw):
@@ -32,6 +33,7 @@ FLOORS = {
     # effect / ownership rules (write sites confirmed by reading conducting.py / machines.py)
     "F1": 10, "F2": 10, "F3": 10, "F4": 8, "F5": 25, "F6": 3, "F7": 2, "F8": 8, "O1": 30,
     "O2": 6, "O3": 20, "S1": 20,
+    "X1": 5, "X2": 40, "X3": 6,
 }
 
 PROPERTIES = {}
@@ -201,6 +203,31 @@ prop(
 )
 
 prop(
+    "C11",
+    anchor_modules=ENGINE_MODS + ["expressions.base", "expressions.yql", "expressions.jinja",
+                                  "specs.native.v1.models"],
+    rules=[X.rule_X1, X.rule_X2, X.rule_X3],
+    controls=[K.ctl_narrow_next_tasks_handler, K.ctl_unwrap_criteria_try,
+              K.ctl_unwrap_evaluator_try, K.ctl_handler_without_fail],
+    explanation=(
+        "Decides containment lexically, which is what the property is: for every call of "
+        "expressions.base.evaluate and every raise that checks an evaluated value (15 + 4 sites "
+        "today) and every call chain from the conductor API (get_next_tasks, update_task_state, "
+        "request_workflow_status, render_workflow_output, request_workflow_rerun, the lazy "
+        "workflow_state initialiser) to it, some frame's try catches the raised class and does "
+        "not re-raise (X2); every such handler and every consumer of an error list returned by "
+        "the rendering helpers both records the error and requests 'failed', and get_next_tasks "
+        "returns nothing once it saw a rendering error (X3); inside both evaluators every call "
+        "into the template engine is wrapped by a catch-all that raises the language's "
+        "EvaluationException, and the dispatcher adds no raw failure (X1, assumed by X2). NOT "
+        "decided: that yaql/jinja2 map every kind of failure to an exception at all (foreign "
+        "code); X1 bounds it by requiring the catch-all conversion."),
+    assumptions=[A_ABS, A_AST, "call edges are those resolved by the abstract interpretation from "
+                 "the API entry points (printed in the evidence); evaluators are reached only "
+                 "through expressions.base.evaluate"],
+)
+
+prop(
     "C18",
     anchor_modules=ENGINE_MODS,
     rules=[E.rule_F1, E.rule_F2, E.rule_F3, _t(T.rule_T4e), E.rule_O1, E.rule_O2],
@@ -233,6 +260,8 @@ NOT_APPLICABLE = {
 PENDING = {}
 
 TECHNIQUE = {
+    "C11": "exception-escape analysis: call-chain enumeration over the resolved call graph with "
+           "lexical try/except containment; evaluator wrapping contract",
     "C04": "typestate analysis of terminal rows + effect analysis (who writes the status; no "
            "write precedes a rejecting raise) by abstract interpretation over the ast",
     "C05": "ownership / alias analysis (access-path abstract interpretation), "
